@@ -172,7 +172,7 @@ func main() {
 		r.Capped(fmt.Sprintf("%d of %d cases were measured", measured, len(tasks)))
 	}
 
-	var ot []string
+	ot := []string{}
 	for o := range oneTime {
 		ot = append(ot, o)
 	}
